@@ -268,3 +268,38 @@ pub fn request_deviations(prop: &'static str, sh: &Arc<Shared>, anchors: Vec<u64
         }),
     }
 }
+
+/// seed masks of a plan: minimal, full, and every single optional member (with its ancestors)
+pub fn seed_masks(plan: &Plan) -> Vec<(String, u64)> {
+    let mut v = vec![("minimal".to_string(), 0u64)];
+    if plan.full_mask() != 0 {
+        v.push(("full".to_string(), plan.full_mask()));
+    }
+    for i in 0..plan.opts.len() {
+        let mut m = 0u64;
+        let mut g = Some(i);
+        while let Some(x) = g {
+            m |= 1 << x;
+            g = plan.opts[x].parent;
+        }
+        if !v.iter().any(|(_, x)| *x == m) {
+            v.push((format!("only{}", plan.opts[i].path), m));
+        }
+    }
+    v
+}
+
+/// (label, target, wire tree, message bytes) for every seed of every parameter-bearing command
+pub fn all_seeds() -> Vec<(String, Target, V, Vec<u8>)> {
+    let mut out = Vec::new();
+    for b in PARAM_CMDS {
+        let t = Target::Cmd(b);
+        let plan = Plan::new(&t.schema(), Side::Request);
+        for (label, mask) in seed_masks(&plan) {
+            let wire = plan.build(mask, &[]);
+            let bytes = t.bytes(&wire);
+            out.push((format!("{}:{}", t.name(), label), t.clone(), wire, bytes));
+        }
+    }
+    out
+}
